@@ -1017,6 +1017,10 @@ def plan(tier, seed):
 
 
 SCAN_FEATURE_TREES = [
+    # a module file and a package directory with the same stem side by side (package shadows module):
+    # both map to one module name, whichever is enumerated first
+    {"p": "d", "p/u.py": "f", "p/u": "d", "p/u/v.py": "f", "p/w.py": "f"},
+    {"u.py": "f", "u": "d", "u/__init__.py": "f", "u/a.py": "f", "b.py": "f"},
     {"p": "d", "p/__init__.py": "f", "p/a.py": "f", "p/b.py": "f", "p/q": "d", "p/q/c.py": "f", "p/q/d.py": "f", "m.py": "f"},
     {"x": "d", "x/a.py": "f", "x/ab.py": "f", "x/a_b.py": "f", "y": "d", "y/a.py": "f", "y/x": "d", "y/x/a.py": "f"},
 ]
